@@ -32,6 +32,7 @@ LINES = [
     ("1Elsewhere, other port\t/pub\tgopher.example.org\t7070", ("link", "1", "Elsewhere, other port", "/pub", "gopher.example.org", 7070)),
     ("1Bad port\t/pub\tgopher.example.org\tseventy", ("link", "1", "Bad port", "/pub", "gopher.example.org", None)),
     ("1home\t\tgopher.example.org\t70", ("link", "1", "home", "{B}/home", "gopher.example.org", 70)),
+    ("1Archive, port only\t/archive\t\t7070", ("link", "1", "Archive, port only", "/archive", None, 7070)),
     ("  indented text", ("info", "indented text")),
     ("9binary\tfiles/a.bin", ("link", "9", "binary", "{B}/files/a.bin", None, None)),
     # a line ends at the line feed and nowhere else: form feed, vertical tab, a lone CR, U+2028 and U+0085 are part of the text
